@@ -158,10 +158,14 @@ func RootCause(err error) error {
 	// at the first error that dig did not create, even if that error wraps
 	// a dig.Error of its own.
 	for {
-		if cf, ok := de.(errConstructorFailed); ok {
-			// Whatever the constructor returned is the root cause, even if
-			// it is a dig.Error itself (the failure of another container).
-			return cf.Reason
+		// Whatever a constructor or decorator returned is the root cause,
+		// even if it is a dig.Error itself (the failure of another
+		// container).
+		switch f := de.(type) {
+		case errConstructorFailed:
+			return f.Reason
+		case errDecoratorFailed:
+			return f.Reason
 		}
 		cause := errors.Unwrap(de)
 		if cause == nil {
@@ -246,6 +250,29 @@ func (e errConstructorFailed) writeMessage(w io.Writer, verb string) {
 
 func (e errConstructorFailed) Format(w fmt.State, c rune) {
 	formatError(e, w, c)
+}
+
+// errDecoratorFailed marks the error a user-provided decorator returned, as
+// errConstructorFailed does for constructors: whatever is below it came from
+// user code. It adds nothing to the message.
+type errDecoratorFailed struct {
+	Reason error
+}
+
+var _ digError = errDecoratorFailed{}
+
+func (e errDecoratorFailed) Error() string { return e.Reason.Error() }
+
+func (e errDecoratorFailed) Unwrap() error { return e.Reason }
+
+func (e errDecoratorFailed) writeMessage(io.Writer, string) {}
+
+func (e errDecoratorFailed) Format(w fmt.State, c rune) {
+	if f, ok := e.Reason.(fmt.Formatter); ok {
+		f.Format(w, c)
+		return
+	}
+	io.WriteString(w, e.Reason.Error())
 }
 
 // errArgumentsFailed is returned when a function could not be run because one
